@@ -41,7 +41,11 @@ func ValidateSyncCommitteeSubnet(ctx context.Context, subnet uint64, syncCommMes
 	// [REJECT] The subnet_id is valid for the given validator,
 	// i.e. subnet_id in compute_subnets_for_sync_committee(state, sync_committee_message.validator_index).
 	// Note this validation implies the validator is part of the broader current sync committee along with the correct subcommittee.
-	if !epc.CurrentSyncCommittee.InSubnet(spec, syncCommMessage.ValidatorIndex, subnet) {
+	syncCommittee := SyncCommitteeAtSlot(spec, epc, syncCommMessage.Slot)
+	if syncCommittee == nil {
+		return nil, GossipValidatorResult{IGNORE, fmt.Errorf("no sync committee available at slot %d", syncCommMessage.Slot)}
+	}
+	if !syncCommittee.InSubnet(spec, syncCommMessage.ValidatorIndex, subnet) {
 		return nil, GossipValidatorResult{REJECT, fmt.Errorf("validator %d is not in sync committee subnet %d at slot %d",
 			syncCommMessage.ValidatorIndex, subnet, syncCommMessage.Slot)}
 	}
@@ -62,5 +66,5 @@ func ValidateSyncCommitteeSubnet(ctx context.Context, subnet uint64, syncCommMes
 
 	scpVal.MarkSyncCommMsg(syncCommMessage.ValidatorIndex, syncCommMessage.Slot, subnet)
 
-	return epc.CurrentSyncCommittee.Indices, GossipValidatorResult{ACCEPT, nil}
+	return syncCommittee.Indices, GossipValidatorResult{ACCEPT, nil}
 }
